@@ -16,7 +16,7 @@ var propTable = map[string]propInfo{
 	}},
 	"C01": {"proof", "The syntactic sufficient condition for behaviour preservation is stated as contracts and discharged: (a) every parse function stores the token it consumes verbatim in the node it builds ([node] clauses: Token == the current token at entry, Operator/Value == its literal, children == the results of the sub-parses, compound assignment operator '+'/'-' from the token type); (b) every printer re-emits its node's tokens and children in source order -- the [syntax] clause of each of the 29 WriteTo methods fixes the exact sequence of code-writer calls (leading comments, mapping, token text, children, brackets, semicolon), loops by per-iteration trace contracts; (c) Compile prints the program exactly once through a fresh writer and returns the writer's text unprocessed in compact mode.", []string{
 		"Meta M5: equal token streams with equal literal values and statement boundaries give equal behaviour (XJS is a subset of JavaScript); no JavaScript engine is modelled",
-		"depends on the verdicts of C02 (tree shape), C03 (parenthesisation/fusion) and C07 (literal values); token fusion in compact output (`a - -b`) is not covered by a contract in this revision",
+		"includes the obligations of C02 (tree shape), C03 (parenthesisation, no sign-token fusion) and C07 (literal values)",
 		"printers are verified for well-formed trees ([wf] hypotheses: mandatory children non-nil)",
 	}},
 	"C02": {"proof", "Mechanism contracts of the Pratt parser, discharged on the real functions: the package-level binding-power table equals the ECMAScript precedence classes jsLevel (proved for package initialisation) and is copied unchanged into every parser; the climbing loop continues only while the next token binds strictly tighter than the requested level, never past ';' nor across a line break before '++'/'--' (restricted production), and stops only when that condition fails ([climb.strict]/[climb.exit]); operand levels: binary = own level (left associative), assignment/compound assignment = lowest again (right associative), unary = UNARY, member property = MEMBER, grouping/index = lowest; statement dispatch equals the subset grammar's table; statement termination (explicit ';', end/'}' without consuming, line break before a statement-starting token, error on the same line in strict mode); `return` takes no operand across a line break. Two genuine defects (restricted productions) found and fixed.", []string{
@@ -25,7 +25,7 @@ var propTable = map[string]propInfo{
 	}},
 	"C03": {"proof", "Printer/parser agreement and parenthesisation as contracts: operatorPrecedence equals astLevel for every token type; astLevel equals the parser's jsLevel and the two constant blocks are member-wise equal (cross-package lemma unit); each Precedence() method returns its node kind's class; BinaryExpression/UnaryExpression/PostfixExpression bracket an operand exactly when the stratified-grammar rule demands it (left: strictly looser, right: looser or equal, unary/postfix operand: strictly looser), with the Precedence() queries made on the right children; GroupedExpression always brackets and is atomic; assignment values are parsed right-associatively and printed without brackets (C02 [operand.level]).", []string{
 		"Meta M2: print-then-parse = identity by induction over trees from the per-node clauses and the Pratt lemma (M1); 'compiling is a fixed point' is a corollary",
-		"token fusion in compact output (`1 - -2` printed as `1--2`, `a + ++b`) and the statement-start hazard (an expression statement beginning with `{` or `function`) are NOT covered by a contract in this revision: they need first/last-character classes of child output",
+		"sign-token fusion (`1 - -2` printed as `1--2`, `a + ++b`) is excluded by the writer invariant NoFusion (a fold over the write history), proved for every writer method and printer after the fix; the statement-start hazard (an expression statement beginning with `{` or `function`) is NOT covered by a contract",
 	}},
 	"C06": {"proof", "Layout-only behaviour of the code writer and the printers: WriteSpace/WriteNewline/WriteIndent/IncreaseIndent/DecreaseIndent write nothing, record no mapping and are no-ops in compact mode; deferred layout consists of ' ', newline and indentation markers only and is written by flushPending once each, in order; WriteSemi emits ';' iff compact or WriteSemicolons and nothing else otherwise; every printer leaves IndentLevel as it found it; options (PrettyPrint, IndentString, WriteSemicolons) are outside every modifies clause; the [syntax] clause of each printer is stated over the token events only (layout calls ignored), hence identical for every option combination; Compile post-processes iff pretty printing is on.", []string{
 		"'formatting the formatted output reproduces it' needs parse-then-print and the trivia round trip (Meta M2); not mechanised",
@@ -46,15 +46,16 @@ var propTable = map[string]propInfo{
 		"reading fixed in DESIGN.md: a function body is a block inside a function, so directly inside a function body CurrentContext() is BlockContext and IsInFunction() is true",
 		"functions stored in the parser's function-typed fields obey the slot contracts: checked at every store inside the package; plugin interceptors are assumed pass-through and plugin createExpr callbacks are assumed to touch parser state only through the thunk they are given (hypotheses of C04/C05)",
 	}},
-	"C11": {"proof", "Safety obligations (nil dereference, index/slice bounds, nil-map store, failed type assertion, explicit panic) are generated without annotation for every instruction of every function of packages lexer and parser and discharged under the proved invariants (lexInv, parserInv). The error contract is stated on the real functions: ParseProgram returns a non-nil program, err != nil iff len(errors) > 0, and no statement list (program or block) contains a nil or typed-nil entry (loop invariants over the lists; the statement slot contract forbids typed-nil results, which the engine's (tag,payload) interface model distinguishes from nil); the error list only grows ([errors-grow]); statement parsers return nil only after recording an error; every error is recorded through AddErrorAtToken, whose precondition demands a token that came from Lexer.NextToken (ghost predicate LexTok), so every error range is a token range.", []string{
+	"C11": {"proof", "Safety obligations (nil dereference, index/slice bounds, nil-map store, failed type assertion, explicit panic, nil interface receiver) are generated without annotation for every instruction of every function of packages lexer, parser, ast, compiler and debug and discharged under the proved invariants (lexInv, parserInv, cwInv) -- for the printers under their one-level well-formedness hypotheses [wf]. The error contract is stated on the real functions: ParseProgram returns a non-nil program, err != nil iff len(errors) > 0, and no statement list (program or block) contains a nil or typed-nil entry (the engine's (tag,payload) interface model distinguishes typed nil from nil); the error list only grows; every statement/expression/prefix/infix parse step returns nil only after recording an error (slot contracts, incl. interceptor wrappers and registered operators); every error is recorded through AddErrorAtToken, whose precondition demands a token that came from Lexer.NextToken (ghost predicate LexTok), so every error range is a token range; and every node-building parse function proves the [wf] clause: if it recorded no error, the node it returns has all mandatory children -- exactly the hypothesis under which that node's printer is proved not to panic.", []string{
 		"termination of the mutually recursive parse functions is not proved (lexer termination is, see C10); reported as unproved, not assumed",
-		"'no error => all mandatory children present => compiling does not panic' is not mechanised in this revision (expression-level well-formedness contracts and printer safety under it are not written); only the statement-list and error-list clauses are",
+		"'no error => every node satisfies its printer's [wf] hypothesis => compiling never panics' composes the per-node [wf] clauses by induction over the tree (Meta M2); the per-node facts are mechanised on both sides",
+		"plugin hypotheses: interceptors are pass-through; createExpr callbacks return a node (never nil) and act only through the thunk they are handed",
 		"LexTok is a ghost predicate whose only introduction rule is the definitional postcondition of Lexer.NextToken",
 		"strconv.ParseInt/ParseFloat, fmt.Sprintf/Errorf are trusted library contracts",
 	}},
 	"C04": {"proof", "Interceptor wrappers are verified with the ghost call trace: each wrapper calls its interceptor exactly once, with the same parser, handing it a thunk that calls the rest of the chain exactly once with the same parser (and the same binding power), and returns that result; the parser state is untouched between wrapper entry and the call of the rest of the chain. The expression wrapper publishes the step's binding power in currentExpressionPrecedence during the call and restores the previous value on every exit; every parse function preserves that field ([cep] in the frame contract), so a re-entrant ParsePrefixExpression/ParseRemainingExpression at any depth continues with the binding power of the innermost wrapper. Variables captured by function literals and assigned by one of them are treated as shared between activations (forgotten after every call), so a saved value hoisted out of the wrapper fails [cep]. Builder.Use*Interceptor append in installation order, Build hands the lists over unchanged, the lexer's NextToken runs the token chain after trivia skipping (C10).", []string{
 		"plugin interceptors are pass-through (interceptor(p, next) == next()): the property's hypothesis, encoded as the 'passthrough' function-variable contract",
-		"installation order of the chain (first installed = outermost) is established by the descending loops of newWithOptions; the closed form chainS/chainE over function values is not mechanised in this revision (Meta M4)",
+		"installation order: use*Interceptor wraps exactly the previous slot value (capturedVar clauses) and newWithOptions installs the interceptors from the last to the first, each once ([order] clauses); unfolding this into the closed form I0.I1...base is Meta M4",
 		"token interceptor order is not claimed (the property states none)",
 	}},
 	"C05": {"proof", "lexer.Builder.RegisterTokenType and the three parser.Builder.Register*Operator methods are verified against whole-object postconditions: a duplicate is refused with a non-nil error and leaves every operator list and bookkeeping map unchanged; a new operator is appended as exactly that entry and recorded at exactly that key, other keys untouched. NewBuilder's seed sets are verified against the shared specification sets builtinPrefix/builtinInfix/builtinPostfix, and the package-level binding-power table against jsLevel, so the hand-maintained lists cannot drift apart. newWithOptions copies the table into a fresh per-parser map; registerInfixOperator writes exactly the registered level, registerPostfixOperator exactly CALL, other entries untouched. The operand thunks of registered operators are verified (ghost call trace) to perform the same steps as the built-in code paths: infix = read own level from the per-parser table, advance, parse at that level; prefix = advance, parse at UNARY; postfix consumes no token.", []string{
